@@ -244,13 +244,19 @@ fn cells(k: i32, x1: i32, x2: i32) -> i32 {
 // @+ desc="MaskSuperBlitter::blit_span on a w x 2 mask (w symbolic <= 4, symbolic origin, symbolic contents): with row=(y-self.y)/4, sub=(y-self.y)&3, x2'=min(x2,4w): every byte of the whole buffer (slack byte included) becomes old + acc where acc = 16*cells for the first and last touched pixel, 64-(sub==3) for pixels strictly between, 0 elsewhere (cells = quarter-pixel cells of that pixel inside [x1,x2')), saturating at 255 when the sum is 256; no index out of bounds (only the one slack byte past the end may be addressed), no u8 overflow under the caller's guarantee that a pixel never accumulates more than 256"
 #[kani::proof]
 #[kani::unwind(11)]
-fn k_mask_super_blit_span() {
+fn k_mask_super_blit_span() { mask_super_contract::<9>(4); }
+// @ob id=K.mask_super_blit_span_w6 props=C01,C02,C07 kind=bounded:width<=6,rows=2 tier=thorough timeout=3000 fns=MaskSuperBlitter::blit_span
+// @+ desc="MaskSuperBlitter::blit_span, same contract as K.mask_super_blit_span for masks up to 6 pixels wide (up to 4 interior pixels per span)"
+#[kani::proof]
+#[kani::unwind(15)]
+fn k_mask_super_blit_span_w6() { mask_super_contract::<13>(6); }
+fn mask_super_contract<const N: usize>(maxw: i32) {
     let w: i32 = kani::any();
-    kani::assume(w >= 0 && w <= 4);
+    kani::assume(w >= 0 && w <= maxw);
     let ox: i32 = kani::any();
     let oy: i32 = kani::any();
     kani::assume(ox >= -50 && ox <= 50 && oy >= -50 && oy <= 50);
-    let old: [u8; 9] = kani::any();
+    let old: [u8; N] = kani::any();
     let n = (w * 2) as usize + 1;
     let mut b = MaskSuperBlitter { x: ox * 4, y: oy * 4, width: w, buf: old[..n].to_vec() };
     let y: i32 = kani::any();
@@ -265,7 +271,7 @@ fn k_mask_super_blit_span() {
     let (p1, p2) = (x1l >> 2, x2c >> 2);
     // caller's guarantee: no pixel accumulates past 256 (255 for interior pixels which are added without saturation)
     let mut k = 0;
-    while k < 5 {
+    while k <= maxw {
         if k <= w {
             let idx = (row * w + k) as usize;
             if idx < n {
@@ -279,7 +285,7 @@ fn k_mask_super_blit_span() {
     b.blit_span(y, x1, x2);
     assert!(b.buf.len() == n && b.width == w && b.x == ox * 4 && b.y == oy * 4, "frame");
     let mut i = 0;
-    while i < 9 {
+    while i < N {
         if i < n {
             let r = if w > 0 { i as i32 / w } else { 0 };
             let kx = i as i32 - row * w; // column relative to the touched row (w = one past the end = slack/next row start)
@@ -294,7 +300,7 @@ fn k_mask_super_blit_span() {
         }
         i += 1;
     }
-    kani::cover!(w == 4 && p2 - p1 == 3 && sub == 3);
+    kani::cover!(w == maxw && p2 - p1 == maxw - 1 && sub == 3);
     kani::cover!(w == 3 && p1 == p2 && x2c > x1l);
     kani::cover!(x2 - ox * 4 > 4 * w);
 }
@@ -2176,7 +2182,7 @@ fn k_contract_partial_alpha() {
 #[kani::unwind(11)]
 #[kani::stub_verified(saturated_add)]
 #[kani::stub_verified(coverage_to_partial_alpha)]
-fn k_mask_super_blit_span_modular() { k_mask_super_blit_span(); }
+fn k_mask_super_blit_span_modular() { mask_super_contract::<9>(4); }
 
 // ---------------------------------------------------------------- half-pixel conjugation of the sampling matrix (C13 #6)
 fn mfp_eq(a: &MatrixFixedPoint, b: &MatrixFixedPoint) -> bool { a.xx == b.xx && a.xy == b.xy && a.yx == b.yx && a.yy == b.yy && a.x0 == b.x0 && a.y0 == b.y0 }
